@@ -41,6 +41,7 @@ def alphabet(tier):
         {"s": A, "op": "close"},
         {"s": "env", "op": "deliver", "m": "INBOX"},
         {"s": "env", "op": "deliver", "m": "INBOX", "n": 2},
+        {"s": "env", "op": "deliver", "m": "a"},  # into a mailbox nobody has selected: found only by the next command that looks at it
         {"s": "env", "op": "poll", "dt": 21.0},
         {"s": "env", "op": "restart"},
         {"s": A, "op": "delete", "m": "a/b"},
